@@ -188,7 +188,7 @@ def run_shard(ctx):
         q = [max(-base + 1, min(x, 126 - base)) for x in q]
         if rng.random() < 0.93:
             q = [max(0, x) for x in q]   # mostly non-negative; 7% keep characters below the base
-        seq = "".join(rng.choice("ACGTGGGN" if rng.random() < 0.7 else "ACGT") for _ in range(L))
+        seq = "".join(rng.choice("ACGTGGGNg" if rng.random() < 0.7 else "ACGT") for _ in range(L))
         nc = rng.choice([5, 10, 20])
         check_direct(ctx, q, cf, cb, base, seq, nc)
         if asan and i % 50 == 0:
